@@ -453,8 +453,9 @@ func (s *Store[H]) setHead(ctx context.Context, write datastore.Write, to uint64
 		return fmt.Errorf("getting head: %w", err)
 	}
 
-	// update the contiguous head
+	// update the contiguous head and the height it is published under
 	s.contiguousHead.Store(&newHead)
+	s.heightSub.Init(newHead.Height())
 	if err := writeHeaderHashTo(ctx, write, newHead, headKey); err != nil {
 		return fmt.Errorf("writing headKey in batch: %w", err)
 	}
